@@ -18,7 +18,7 @@ META = {
         "quick": {"evaluations": 4000, "distinct_nontrivial": 800, "tables": {"fn/svd": 1500, "fn/norm": 1500, "fn/eigh": 400, "fn/solve": 400, "feature/fermionic": 800, "feature/missing-blocks": 300}},
         "thorough": {"evaluations": 120000, "distinct_nontrivial": 25000, "tables": {"fn/eigh": 8000, "fn/solve": 8000}},
     },
-    "wall": {"quick": 300, "thorough": 1500},
+    "wall": {"quick": 900, "thorough": 1500},
 }
 
 
